@@ -328,3 +328,43 @@ M2('c09-forwarded-table-lowercases-every-value', 'C09', 'R7', [_FWD_TABLE, {'fil
                     value = value.lower()
                     setattr(parsed_element, attr, value)
 """}], also=('C19',))
+
+# --------------------------------------------------------------------- R12
+# access_route hands the Forwarded node value to parse_host as it is (value provenance from <hop>.src to the call)
+_HOP_CALL = "                        host, __ = parse_host(hop.src)\n"
+_HOP_PRESPLIT = """                        src = hop.src
+                        node, sep, port = src.rpartition(':')
+                        if sep and not port.isdigit():
+                            src = node
+                        host, __ = parse_host(src)
+"""
+# the seeded "fix" of F4: a non-numeric port is dropped before parse_host -- and with it the tail of a bracketed IPv6 address
+M2('c09-access-route-drops-non-numeric-port-before-parse-host', 'C09', 'R12', [
+    {'file': 'falcon/request.py', 'old': _HOP_CALL, 'new': _HOP_PRESPLIT},
+    {'file': 'falcon/asgi/request.py', 'old': _HOP_CALL, 'new': _HOP_PRESPLIT}])
+M('c09-wsgi-access-route-rsplit-port', 'C09', 'R12', 'falcon/request.py', _HOP_CALL,
+  "                        host, __ = parse_host(hop.src.rsplit(':', 1)[0])\n")
+M('c09-asgi-access-route-slices-at-last-colon', 'C09', 'R12', 'falcon/asgi/request.py', _HOP_CALL,
+  """                        node = hop.src
+                        if node.count(':') == 1:
+                            node = node[: node.index(':')]
+                        host, __ = parse_host(node)
+""")
+
+# --------------------------------------------------------------------- R13
+# a quoted Forwarded value loses exactly its two enclosing DQUOTEs, then quoted-pairs are un-escaped (sample evaluation)
+_FWD_UNQUOTE = "                    value = unquote_string(value)\n"
+# the seeded modernisation: strip('"') eats an escaped quote at the end of the value
+M('c09-forwarded-unquote-by-strip', 'C09', 'R13', 'falcon/forwarded.py', _FWD_UNQUOTE,
+  "                    value = _QUOTED_PAIR_REPLACE_RE.sub(r'\\1', value.strip('\"'))\n")
+M('c09-forwarded-unquote-removes-every-dquote', 'C09', 'R13', 'falcon/forwarded.py', _FWD_UNQUOTE,
+  "                    value = unquote_string(value).replace('\"', '')\n")
+M('c09-forwarded-unquote-without-unescaping', 'C09', 'R13', 'falcon/forwarded.py', _FWD_UNQUOTE,
+  "                    value = value[1:-1]\n")
+# the same mistake inside the shared helper
+M('c09-unquote-string-strips-dquotes', 'C09', 'R13', 'falcon/util/uri.py',
+  "    tmp_quoted = quoted[1:-1]\n", "    tmp_quoted = quoted.strip('\"')\n")
+# un-escaping in the wrong order: the backslash pairs are resolved after single backslashes were dropped
+M('c09-unquote-string-drops-backslashes-first', 'C09', 'R13', 'falcon/util/uri.py',
+  "        return '\\\\'.join([q.replace('\\\\', '') for q in tmp_quoted.split(r'\\\\')])\n",
+  "        return tmp_quoted.replace('\\\\', '')\n")
